@@ -129,10 +129,12 @@ class AsyncListener:
             and (addrs[1] == _MDNS_PORT or addrs[:2] == self.last_message.source)
             # The packets of a truncated query are held per source: two queriers
             # with the same cache send the same bytes and each has to get its
-            # own query assembled. A copy from the same source is recognised
-            # where the packets are held
+            # own query assembled. That is for another source only: a copy from
+            # the same source stays a duplicate (the packets that were held for
+            # it may have been answered already)
             and not (
                 self.last_message.is_query()
+                and addrs[:2] != self.last_message.source
                 and (self.last_message.truncated or (self._deferred and self._holds_truncated_query_of(addrs)))
             )
         ):
